@@ -198,6 +198,9 @@ const GSPECS: &[GSpec] = &[
     GSpec { mods: "CONTROLLED ", name: "X", nparams: 0, nqubits: 2, level: 3 },
     GSpec { mods: "", name: "Y", nparams: 0, nqubits: 1, level: 5 },
     GSpec { mods: "", name: "RZ", nparams: 1, nqubits: 1, level: 6 },
+    // two parameters: at most one of them is generalised to the variable %t when a calibration is
+    // derived, so a constant can come before (or after) the variable in the DEFCAL header
+    GSpec { mods: "", name: "U2", nparams: 2, nqubits: 1, level: 7 },
 ];
 const MEASURE_LEVEL: usize = 4;
 
@@ -498,11 +501,25 @@ impl<'a> CalibGen<'a> {
                 }
                 let mut hp = Vec::new();
                 let mut tparam = None;
-                for cp in params {
-                    let roll = self.rng.below(20);
+                // with several parameters only one may become the variable %t (which one is random)
+                let only_variable_slot = if params.len() > 1 { Some(self.rng.below(params.len() + 1)) } else { None };
+                for (slot, cp) in params.iter().enumerate() {
+                    let mut roll = self.rng.below(20);
                     // an open compound expression (mentions an unbound variable) is only ever
                     // generalised: "equal to a non-variable parameter" is not well defined for it
                     let open_compound = cp.contains('%') && !atomic(cp);
+                    if let Some(v) = only_variable_slot {
+                        if v == slot {
+                            roll = 0;
+                        } else if roll < 10 {
+                            roll = 12;
+                        }
+                        if open_compound && v != slot {
+                            // cannot stay a constant: make the header not match instead
+                            hp.push(self.rng.pick(CONST_PARAMS).to_string());
+                            continue;
+                        }
+                    }
                     if roll < 10 || open_compound {
                         hp.push("%t".to_string());
                         tparam = Some(cp.clone());
